@@ -41,7 +41,7 @@ def parseCt (s : String) : Option Sym :=
   | ["X"] => some .junk
   | _ => none
 
-def showMsg : Msg Sym → String
+def showMsgWith {Ct} (showCt : Ct → String) : Msg Ct → String
   | .reqPQ n => s!"reqPQ {toHex n}"
   | .resPQ n sn pq fps => s!"resPQ {toHex n} {toHex sn} {pq} {showNats fps}"
   | .reqDH n sn p q fp ct => s!"reqDH {toHex n} {toHex sn} {p} {q} {fp} {showCt ct}"
@@ -53,7 +53,9 @@ def showMsg : Msg Sym → String
   | .genFail n sn h => s!"genFail {toHex n} {toHex sn} {toHex h}"
   | .junk => "junk"
 
-def parseMsg (ws : List String) : Option (Msg Sym) :=
+def showMsg : Msg Sym → String := showMsgWith showCt
+
+def parseMsgWith {Ct} (parseCt : String → Option Ct) (ws : List String) : Option (Msg Ct) :=
   match ws with
   | ["reqPQ", n] => do pure (.reqPQ (← ofHex n))
   | ["resPQ", n, sn, pq, fps] => do pure (.resPQ (← ofHex n) (← ofHex sn) (← pq.toNat?) (← parseNats fps))
@@ -67,6 +69,8 @@ def parseMsg (ws : List String) : Option (Msg Sym) :=
   | ["genFail", n, sn, h] => do pure (.genFail (← ofHex n) (← ofHex sn) (← ofHex h))
   | ["junk"] => some .junk
   | _ => none
+
+def parseMsg : List String → Option (Msg Sym) := parseMsgWith parseCt
 
 /-- Split a word list at the separator word. -/
 def splitAt (sep : String) : List String → List (List String)
